@@ -191,6 +191,46 @@ impl PairWorld {
         Ok(out)
     }
 
+    /// Every way of asking for the fee ledgers must tell the same story: for each asset, the entry
+    /// returned with `asset_id: Some(that asset)` equals the entry of the unfiltered answer, for the
+    /// pending ledger (`all_time` None / Some(false)), the all-time ledger (Some(true)) and the burned
+    /// ledger. (An answer may carry more entries than asked for; only the asked asset's entry is read.)
+    pub fn ledger_query_matrix(&self) -> Result<(), String> {
+        let id_of = |info: &AssetInfo| match info {
+            AssetInfo::NativeToken { denom } => denom.clone(),
+            AssetInfo::Token { contract_addr } => contract_addr.clone(),
+        };
+        let entry = |r: &pair::ProtocolFeesResponse, info: &AssetInfo| r.fees.iter().find(|a| a.info == *info).map(|a| a.amount.u128());
+        for all_time in [None, Some(false), Some(true)] {
+            let base: pair::ProtocolFeesResponse = self.w.query(&self.pair, &pair::QueryMsg::ProtocolFees { asset_id: None, all_time })?;
+            for info in &self.infos {
+                let f: pair::ProtocolFeesResponse =
+                    self.w.query(&self.pair, &pair::QueryMsg::ProtocolFees { asset_id: Some(id_of(info)), all_time })?;
+                if entry(&f, info) != entry(&base, info) {
+                    return Err(format!(
+                        "ProtocolFees {{ asset_id: Some({}), all_time: {all_time:?} }} reports {:?} for that asset but the unfiltered query reports {:?}",
+                        id_of(info),
+                        entry(&f, info),
+                        entry(&base, info)
+                    ));
+                }
+            }
+        }
+        let base: pair::ProtocolFeesResponse = self.w.query(&self.pair, &pair::QueryMsg::BurnedFees { asset_id: None })?;
+        for info in &self.infos {
+            let f: pair::ProtocolFeesResponse = self.w.query(&self.pair, &pair::QueryMsg::BurnedFees { asset_id: Some(id_of(info)) })?;
+            if entry(&f, info) != entry(&base, info) {
+                return Err(format!(
+                    "BurnedFees {{ asset_id: Some({}) }} reports {:?} for that asset but the unfiltered query reports {:?}",
+                    id_of(info),
+                    entry(&f, info),
+                    entry(&base, info)
+                ));
+            }
+        }
+        Ok(())
+    }
+
     pub fn lp_balance(&self, who: &Addr) -> u128 {
         self.w.cw20_balance(&self.lp, who)
     }
@@ -587,6 +627,46 @@ impl TrioWorld {
             out.push(p.amount.u128());
         }
         Ok(out)
+    }
+
+    /// Every way of asking for the fee ledgers must tell the same story: for each asset, the entry
+    /// returned with `asset_id: Some(that asset)` equals the entry of the unfiltered answer, for the
+    /// pending ledger (`all_time` None / Some(false)), the all-time ledger (Some(true)) and the burned
+    /// ledger. (An answer may carry more entries than asked for; only the asked asset's entry is read.)
+    pub fn ledger_query_matrix(&self) -> Result<(), String> {
+        let id_of = |info: &AssetInfo| match info {
+            AssetInfo::NativeToken { denom } => denom.clone(),
+            AssetInfo::Token { contract_addr } => contract_addr.clone(),
+        };
+        let entry = |r: &trio::ProtocolFeesResponse, info: &AssetInfo| r.fees.iter().find(|a| a.info == *info).map(|a| a.amount.u128());
+        for all_time in [None, Some(false), Some(true)] {
+            let base: trio::ProtocolFeesResponse = self.w.query(&self.trio, &trio::QueryMsg::ProtocolFees { asset_id: None, all_time })?;
+            for info in &self.infos {
+                let f: trio::ProtocolFeesResponse =
+                    self.w.query(&self.trio, &trio::QueryMsg::ProtocolFees { asset_id: Some(id_of(info)), all_time })?;
+                if entry(&f, info) != entry(&base, info) {
+                    return Err(format!(
+                        "ProtocolFees {{ asset_id: Some({}), all_time: {all_time:?} }} reports {:?} for that asset but the unfiltered query reports {:?}",
+                        id_of(info),
+                        entry(&f, info),
+                        entry(&base, info)
+                    ));
+                }
+            }
+        }
+        let base: trio::ProtocolFeesResponse = self.w.query(&self.trio, &trio::QueryMsg::BurnedFees { asset_id: None })?;
+        for info in &self.infos {
+            let f: trio::ProtocolFeesResponse = self.w.query(&self.trio, &trio::QueryMsg::BurnedFees { asset_id: Some(id_of(info)) })?;
+            if entry(&f, info) != entry(&base, info) {
+                return Err(format!(
+                    "BurnedFees {{ asset_id: Some({}) }} reports {:?} for that asset but the unfiltered query reports {:?}",
+                    id_of(info),
+                    entry(&f, info),
+                    entry(&base, info)
+                ));
+            }
+        }
+        Ok(())
     }
 
     pub fn lp_balance(&self, who: &Addr) -> u128 {
